@@ -26,6 +26,7 @@ type Each struct {
 	Else []Stmt
 }
 type For struct {
+	InitE Expr   // an init clause that is not an assignment (evaluated, value dropped); nil otherwise
 	Init *Assign // may be nil
 	Cond Expr    // may be nil
 	Post Stmt    // Assign, Print (expression whose value becomes the init variable) or nil
@@ -201,6 +202,10 @@ func (in *Interp) stmt(s Stmt, sc *Scope, out *strings.Builder) (control, error)
 		loop := NewScope(sc)
 		if n.Init != nil {
 			if _, err := in.stmt(*n.Init, loop, out); err != nil {
+				return ctlNone, err
+			}
+		} else if n.InitE != nil {
+			if _, err := in.Eval(n.InitE, loop); err != nil {
 				return ctlNone, err
 			}
 		}
